@@ -108,7 +108,7 @@ Qed.
 Theorem chain_append_only h : chain h -> append_only sha h.
 Proof.
   intros C i j c ls c' ls' Hij Hi Hj.
-  destruct (chain_pairs h C i j c ls c' ls' Hij Hi Hj) as (P & T & [S R] & [S' R']).
+  destruct (chain_pairs h C i j c ls c' ls' Hij Hi Hj) as (P & T & (S & R & _) & (S' & R' & _)).
   pose proof (prefix_length _ _ P) as Len.
   split; [lia|]. split; [|assumption].
   rewrite S, Nat2N.id, (prefix_firstn _ _ P). exact R.
